@@ -5,9 +5,10 @@ import itertools
 import random
 import sys
 import threading
+import time
 
 from .. import astx, refimpl
-from ..history import ExecFailure, History, Sentinel
+from ..history import ExecFailure, History, Sentinel, _uid
 
 N_CASES = {"quick": 40, "thorough": 7500}
 TIME_BUDGET = {"quick": 60, "thorough": 270}
@@ -389,9 +390,97 @@ def rootless(ctx):
         ctx.violation("root-not-recoverable", f"find_EventDataset raised {ex}", {"scenario": "rootless"})
 
 
+def nested_scenario(ctx, variant):
+    """an executor that itself asks ANOTHER stream for its value, synchronously (a back end resolving a dependency): from plain code,
+    from inside a running event loop, and from two threads each running a loop whose executions finish in the opposite order of their
+    start. Bounded progress: every execution completes (a generous wall-clock watchdog; executors that were never entered are named)"""
+    from func_adl import EventDataset
+
+    log, lock = [], threading.Lock()
+
+    class NDS(EventDataset):
+        def __init__(self, name, inner=None, wait_for=None, then_set=None):
+            super().__init__()
+            self.name, self.inner, self.wait_for, self.then_set = name, inner, wait_for, then_set
+
+        async def execute_result_async(self, a, title=None):
+            with lock:
+                log.append(("enter", self.name, title))
+            res = Sentinel(next(_uid))
+            if self.inner is not None:
+                res = (res, self.inner.value(title="inner of " + self.name))  # a synchronous value() while a loop is running here
+            if self.wait_for is not None:
+                self.wait_for.wait(20)
+            if self.then_set is not None:
+                self.then_set.set()
+            with lock:
+                log.append(("leave", self.name, res))
+            return res
+
+    out = {}
+    if variant in ("plain", "in-loop"):
+        inner = NDS("inner").Select("lambda e: e.x")
+        outer = NDS("outer", inner=inner).Select("lambda e: e.y")
+
+        def run():
+            if variant == "plain":
+                out["r"] = outer.value(title="t")
+            else:
+                async def main():
+                    return outer.value(title="t")
+                out["r"] = asyncio.run(main())
+        ths = [threading.Thread(target=run, daemon=True)]
+        expect = ["outer", "inner"]
+    else:
+        b_done = threading.Event()
+        sa = NDS("A", wait_for=b_done).Select("lambda e: e.x")  # started first, finishes only after B has finished
+        sb = NDS("B", then_set=b_done).Select("lambda e: e.y")
+        started = threading.Event()
+
+        def run_a():
+            async def main():
+                started.set()
+                return sa.value(title="a")
+            out["a"] = asyncio.run(main())
+
+        def run_b():
+            started.wait(10)
+            time.sleep(0.05)
+
+            async def main():
+                return sb.value(title="b")
+            out["b"] = asyncio.run(main())
+        ths = [threading.Thread(target=run_a, daemon=True), threading.Thread(target=run_b, daemon=True)]
+        expect = ["A", "B"]
+    for t in ths:
+        t.start()
+    for t in ths:
+        t.join(45)
+    ctx.case(f"nested:{variant}", True)
+    ctx.count("nested-execution-scenarios")
+    entered = [n for ev, n, _ in log if ev == "enter"]
+    w = {"scenario": "nested", "variant": variant}
+    if any(t.is_alive() for t in ths):
+        ctx.violation("nested-execution-never-completed", f"{variant}: value() did not return within 45 s; executors entered: {entered}, expected {expect} once each", w)
+        from ..core import AbortShard
+
+        raise AbortShard()  # (a thread of the library is stuck for good: nothing that follows in this process could be trusted)
+    if sorted(entered) != sorted(expect):
+        ctx.violation("nested-execution:executor-calls-differ", f"{variant}: executors entered {entered}, expected {expect} once each", w)
+        return
+    if variant in ("plain", "in-loop"):
+        leaves = {n: r for ev, n, r in log if ev == "leave"}
+        r = out.get("r")
+        if not (isinstance(r, tuple) and len(r) == 2 and r is leaves.get("outer") and r[1] is leaves.get("inner")):
+            ctx.violation("nested-execution:result-identity", f"{variant}: value() returned {r!r}, the executors returned {leaves!r}", w)
+
+
 def shard_main(ctx):
     if ctx.shard == 0:
         rootless(ctx)
+    if ctx.shard in (0, 5, 9):
+        for variant in ("plain", "in-loop", "two-loops-opposite-order"):
+            nested_scenario(ctx, variant)
     maxn_all = 3 if ctx.tier == "quick" else 4
     # all completion orders, spread over shards
     all_orders = [(n, p) for n in range(1, maxn_all + 1) for p in itertools.permutations(range(n))]
@@ -426,5 +515,7 @@ def replay(ctx, witness):
         concurrent_scenario(ctx, witness["hist_seed"], witness["n"], tuple(witness["order"]), witness["between"])
     elif sc == "threads":
         threaded_scenario(ctx, witness["hist_seed"], witness["nthreads"])
+    elif sc == "nested":
+        nested_scenario(ctx, witness["variant"])
     else:
         rootless(ctx)
